@@ -9,26 +9,24 @@ Import ListNotations.
 Open Scope N_scope.
 Set Default Timeout 120.
 
-(* every successfully parsed address — outside the known class F5 — holds a 20-byte hash or a witness program of version <= 16 and
+(* every successfully parsed address holds a 20-byte hash or a witness program of version <= 16 and
    2..40 bytes (20 or 32 for version 0) whose text carries the checksum variant required for its version (bech32/blech32 for
-   version 0, bech32m/blech32m above), and belongs to the network whose parameters were used *)
+   version 0, bech32m/blech32m above), and belongs to the network whose parameters were used.  (Before the repair of finding F5 —
+   commit 86be616, `program.len() < 2 || program.len() > 40` in Address::from_bech32 — this held only outside the class of blinded
+   version >= 1 addresses with a 0- or 1-byte program.) *)
 Theorem C06_parsed_shape : forall (H : bytes -> bytes) (pk_valid : bytes -> bool) s p a,
-  parse_with_params H pk_valid s p = AOk a -> ~ known_F5 a -> shape_ok s a /\ a_params a = p.
+  parse_with_params H pk_valid s p = AOk a -> shape_ok s a /\ a_params a = p.
 Proof. exact parsed_shape. Qed.
 
-(* finding F5: the full statement (without `~ known_F5 a`) is false of the faithful model — a blinded version-1 address whose data is
-   a blinding key followed by a 1-byte (or empty) witness program parses; the 2..40 rule of src/blech32/decode.rs is applied to
-   key + program *)
-Theorem C06_blinded_short_program_refuted : forall (H : bytes -> bytes),
-  exists s a, from_str H pubkey33_valid s = AOk a /\ known_F5 a /\
-              a_payload a = WitnessProgram 1 [xa9] /\ ~ (shape_ok s a).
-Proof. intros H. exists "lq1pqguc7t884ml9najsrvr8uvgxj4vuneqdvmxlacuwwekaz44u4dxkt2gef4zgpzl48dj"%lb. eexists. split; [vm_compute; reflexivity|].
-  split; [split; [cbn; discriminate|eexists _, _; split; [reflexivity|split; [discriminate|cbn; lia]]]|]. split; [reflexivity|].
-  unfold shape_ok. cbn [a_payload]. intros (_ & L & _). cbn in L. lia. Qed.
-Theorem C06_blinded_empty_program_refuted : forall (H : bytes -> bytes),
-  exists s a, from_str H pubkey33_valid s = AOk a /\ known_F5 a /\ a_payload a = WitnessProgram 1 [].
-Proof. intros H. exists "lq1pqggffpmh62cr0qs432fnfyrdhlnrk7uv2ln4uugrjxadg0n9f4mpzuvenj2eacqxm"%lb. eexists. split; [vm_compute; reflexivity|].
-  split; [split; [cbn; discriminate|eexists _, _; split; [reflexivity|split; [discriminate|cbn; lia]]]|reflexivity]. Qed.
+(* regression for F5: the two witness strings of the former C06_blinded_short_program_refuted / C06_blinded_empty_program_refuted (a blinding
+   key followed by the 1-byte program a9, resp. by an empty program, blech32m, version 1) are now rejected with
+   InvalidWitnessProgramLength by FromStr and by parse_with_params of their network *)
+Theorem C06_F5_witnesses_rejected : forall (H : bytes -> bytes),
+  let s1 := "lq1pqguc7t884ml9najsrvr8uvgxj4vuneqdvmxlacuwwekaz44u4dxkt2gef4zgpzl48dj"%lb in
+  let s0 := "lq1pqggffpmh62cr0qs432fnfyrdhlnrk7uv2ln4uugrjxadg0n9f4mpzuvenj2eacqxm"%lb in
+  from_str H pubkey33_valid s1 = AErr AInvalidWitnessProgramLength /\ parse_with_params H pubkey33_valid s1 LIQUID = AErr AInvalidWitnessProgramLength /\
+  from_str H pubkey33_valid s0 = AErr AInvalidWitnessProgramLength /\ parse_with_params H pubkey33_valid s0 LIQUID = AErr AInvalidWitnessProgramLength.
+Proof. intros H. cbv zeta. repeat split; vm_compute; reflexivity. Qed.
 
 (* FromStr is parse_with_params of one built-in network (so the statements about parse_with_params cover it) *)
 Theorem C06_from_str_is_parse : forall (H : bytes -> bytes) (pk_valid : bytes -> bool) s a,
@@ -67,7 +65,7 @@ Theorem C06_roundtrip_base58 : forall (H : bytes -> bytes) (pk_valid : bytes -> 
 Proof. intros H pkv H4 a. exact (roundtrip_base58 H pkv a H4). Qed.
 
 (* Canonical form: parsing then displaying returns the lower-case form of a segwit string and a base58check string unchanged — every
-   string, every parameter set (built-in or not), every hash and key predicate; also through FromStr.  F5 addresses included. *)
+   string, every parameter set (built-in or not), every hash and key predicate; also through FromStr. *)
 Theorem C06_canonical : forall (H : bytes -> bytes) (pk_valid : bytes -> bool) s p a, parse_with_params H pk_valid s p = AOk a ->
   (is_segwit a /\ display H a = lower s) \/ (~ is_segwit a /\ display H a = s).
 Proof. exact canonical. Qed.
@@ -159,11 +157,10 @@ Check (C06_canonical : forall (H : bytes -> bytes) (pk_valid : bytes -> bool) s 
 Check (C06_one_network : forall (H : bytes -> bytes) (pk_valid : bytes -> bool) s p1 p2 a1 a2,
   In p1 builtin -> In p2 builtin -> parse_with_params H pk_valid s p1 = AOk a1 -> parse_with_params H pk_valid s p2 = AOk a2 -> p1 = p2).
 Check (C06_parsed_shape : forall (H : bytes -> bytes) (pk_valid : bytes -> bool) s p a,
-  parse_with_params H pk_valid s p = AOk a -> ~ known_F5 a -> shape_ok s a /\ a_params a = p).
+  parse_with_params H pk_valid s p = AOk a -> shape_ok s a /\ a_params a = p).
 Check (C06_base58_codec : (forall bs, b58_decode (b58_encode bs) = Ok58 bs) /\ (forall s bs, b58_decode s = Ok58 bs -> b58_encode bs = s)).
 Print Assumptions C06_parsed_shape.
-Print Assumptions C06_blinded_short_program_refuted.
-Print Assumptions C06_blinded_empty_program_refuted.
+Print Assumptions C06_F5_witnesses_rejected.
 Print Assumptions C06_from_str_is_parse.
 Print Assumptions C06_one_network.
 Print Assumptions C06_roundtrip.
